@@ -65,6 +65,11 @@ def make(pid, ob, ks, obligations, spec):
         harness = (spec.get("pairs") or {}).get(fn)
         rec["paired_kani_harness"] = harness
         rec["verus_output"] = ob.get("detail", [])
+        # where the function under contract lives in the repository, and the contract it failed
+        if ob.get("repo"):
+            rec["repo_location"] = ob["repo"]
+        if ob.get("contract"):
+            rec["contract"] = ob["contract"]
     try:
         if harness:
             if ks is None:
